@@ -75,6 +75,24 @@ def model_value(m, v, depth=0):
             return tuple(items) if ty.kind == 'tuple' else items
         return str(e)
 
+    if isinstance(v, MSet):
+        e = m.eval(v.t, model_completion=True)
+        elems = []
+        if v.elem is TInt:
+            cands = [z3.IntVal(i) for i in range(-2, 9)]
+        else:
+            try:
+                cands = list(m.get_universe(v.elem.sort()) or [])
+            except Exception:
+                cands = []
+            if v.elem is TStr:
+                cands += list(sym._str_literals.values())
+        for c in cands:
+            if z3.is_true(m.eval(z3.Select(e, c), model_completion=True)):
+                x = conv(v.elem, c)
+                if x not in elems:
+                    elems.append(x)
+        return {'__set__': elems}
     if isinstance(v, (Val, MList)):
         return conv(v.ty, v.t)
     if isinstance(v, PyTuple):
